@@ -11,6 +11,13 @@ REPO = os.environ.get("PYVC_REPO", "/repo")
 NATIVE_PY = "/venv/bin/python"
 
 PLANS = {
+    "C12": {
+        "level": "proof",
+        "sidecars": ["driver", "charges"],
+        "extras": [],
+        "explanation": "failure side: the output writers are reached only after every check and the whole computation, "
+                       "never on a path on which an exception escapes; option checks; integrality guard",
+    },
     "C07": {
         "level": "proof",
         "sidecars": ["pdbread"],
